@@ -1028,3 +1028,87 @@ def distribute_links_cases():
     if len(g.dovetails) != 4:
         return "policy off: %d links after doubling a segment with 2 links" % len(g.dovetails)
     return True
+
+
+def registry_cases():
+    """concrete battery for the registry of a Gfa (_register_line / _unregister_line): lines of every record type are added and removed one by one;
+    after every step the registered lines are exactly the expected ones (by identity), twins (records with equal fields and no identifier) and
+    fragments of one external sequence in both orientations included"""
+    def reg(g):
+        out = []
+        for rt, coll in g._records.items():
+            if rt == "H":
+                continue
+            for k, v in coll.items():
+                if isinstance(v, dict):
+                    out.extend(v.values())
+                    if not v:
+                        return "an empty sub-collection is kept for %r" % (k,)
+                else:
+                    out.append(v)
+        return out
+    docs = {"gfa1": ["S\tA\t*", "S\tB\t*", "L\tA\t+\tB\t+\t*", "L\tA\t-\tB\t+\t2M\tID:Z:lk", "C\tA\t+\tB\t+\t1\t*", "C\tA\t+\tB\t+\t1\t*", "P\tp\tA+,B+\t*", "# c", "# c"],
+            "gfa2": ["S\tA\t8\t*", "S\tB\t8\t*", "E\t*\tA+\tB+\t6\t8$\t0\t2\t*", "E\t*\tA+\tB+\t6\t8$\t0\t2\t*", "E\te\tA-\tB+\t0\t2\t0\t2\t*", "G\t*\tA+\tB-\t5\t*", "G\tg\tA+\tB-\t5\t*",
+                     "F\tA\tr+\t0\t2\t0\t2\t*", "F\tA\tr-\t2\t4\t0\t2\t*", "F\tB\tr+\t0\t2\t0\t2\t*", "F\tB\tq+\t0\t2\t0\t2\t*", "O\to\tA+ B+", "U\tu\tA B", "U\t*\tA", "X\tx\t1", "X\tx\t1"]}
+    for version, lines in docs.items():
+        g = gfapy.Gfa(version=version)
+        objs = []
+        for t in lines:
+            l = gfapy.Line(t, version=version)
+            g.add_line(l)
+            objs.append(l)
+            r = reg(g)
+            if isinstance(r, str):
+                return r
+            if not any(x is l for x in r):
+                return "%s: %r is not registered after add_line" % (version, t)
+        # remove the lines without dependants one by one, in an order that interleaves the twins and the fragments
+        removable = [l for l in objs if l.record_type in ("L", "C", "P", "E", "G", "F", "O", "U", "X", "#") and not (l.record_type == "E" and l.name == "e")]
+        for l in removable[::2] + removable[1::2]:
+            if not l.is_connected():
+                continue
+            others = [x for x in reg(g) if x is not l]
+            deps = [x for x in others if any(y is l for y in getattr(x, "_refs", {}).get("links", []) )]
+            before = [x for x in reg(g) if x is not l]
+            l.disconnect()
+            r = reg(g)
+            if isinstance(r, str):
+                return "%s: after removing %r: %s" % (version, str(l), r)
+            if any(x is l for x in r):
+                return "%s: %r is still registered after its removal" % (version, str(l))
+            gone = [str(x) for x in before if not any(y is x for y in r) and x.is_connected()]
+            if gone:
+                return "%s: removing %r unregistered lines which are still connected: %s" % (version, str(l), gone)
+            lost = [str(x) for x in before if not any(y is x for y in r) and x.record_type not in ("P", "O", "U")]
+            if lost:
+                return "%s: removing %r also took %s out of the registry" % (version, str(l), lost)
+    return True
+
+
+def own_name_cases():
+    """concrete battery for Connection._validate_no_reference_to_own_name: a line which mentions its own identifier in a reference field (single or
+    list item, text or oriented) is refused with NotUniqueError and the Gfa stays as it was; the same line with another identifier is accepted"""
+    base = {"gfa1": ["S\tA\t*", "S\tB\t*"], "gfa2": ["S\tA\t8\t*", "S\tB\t8\t*"]}
+    shapes = {"gfa1": ["P\t{0}\t{1}+,A-\t*", "P\t{0}\tA+,{1}+\t*", "P\t{0}\tA+,B+,{1}-\t*,*", "L\t{1}\t+\tA\t+\t*\tID:Z:{0}", "L\tA\t+\t{1}\t-\t*\tID:Z:{0}",
+                       "C\t{1}\t+\tA\t+\t0\t*\tID:Z:{0}", "C\tA\t+\t{1}\t+\t0\t*\tID:Z:{0}"],
+              "gfa2": ["E\t{0}\t{1}+\tA+\t0\t2\t0\t2\t*", "E\t{0}\tA+\t{1}-\t0\t2\t0\t2\t*", "G\t{0}\t{1}+\tA-\t3\t*", "G\t{0}\tA+\t{1}-\t3\t*", "O\t{0}\tA+ {1}+", "O\t{0}\t{1}+",
+                       "O\t{0}\t{1}- A+ B+", "U\t{0}\tA {1}", "U\t{0}\t{1}", "U\t{0}\tA B {1}"]}
+    for version in shapes:
+        for shape in shapes[version]:
+            for vlevel in (0, 1):
+                g = gfapy.Gfa(base[version], vlevel=vlevel, version=version)
+                before = (sorted(g.names), str(g))
+                try:
+                    g.add_line(shape.format("X9", "X9"))
+                    return "%s accepted: names %r" % (shape.format("X9", "X9"), g.names)
+                except gfapy.NotUniqueError:
+                    pass
+                except gfapy.Error as e:
+                    return "%s refused with %s, not NotUniqueError" % (shape.format("X9", "X9"), type(e).__name__)
+                if (sorted(g.names), str(g)) != before:
+                    return "%s refused, but the Gfa changed: %r" % (shape.format("X9", "X9"), str(g))
+                try:
+                    g.add_line(shape.format("X9", "B"))           # the same line under its own name, mentioning an existing segment: nothing wrong with it
+                except gfapy.Error as e:
+                    return "%s refused (%s)" % (shape.format("X9", "B"), type(e).__name__)
+    return True
